@@ -8,34 +8,17 @@ import (
 	"pgregory.net/rapid"
 
 	"verif/model"
+	"verif/rnd"
 )
 
 type T = rapid.T
 
-// intn keeps rapid's bias towards small values (sizes, counts).
-func intn(t *T, lo, hi int, label string) int { return rapid.IntRange(lo, hi).Draw(t, label) }
+func intn(t *T, lo, hi int, label string) int     { return rnd.Intn(t, lo, hi, label) }
+func uniform(t *T, n int, label string) int       { return rnd.Uniform(t, n, label) }
+func chance(t *T, pct int, label string) bool     { return rnd.Chance(t, pct, label) }
+func pick(t *T, xs []string, label string) string { return rnd.Pick(t, xs, label) }
 
-var bits8 = rapid.SliceOfN(rapid.Bool(), 8, 8)
-
-// uniform draws 0..n-1 (n ≤ 256) without rapid's small-value bias; all-false bits (what
-// shrinking converges to) give 0.
-func uniform(t *T, n int, label string) int {
-	v := 0
-	for _, b := range bits8.Draw(t, label) {
-		v <<= 1
-		if b {
-			v |= 1
-		}
-	}
-	return v * n / 256
-}
-
-// chance is true with probability pct%; shrinking drives it to false (feature off).
-func chance(t *T, pct int, label string) bool { return uniform(t, 100, label) >= 100-pct }
-
-func pick(t *T, xs []string, label string) string { return xs[uniform(t, len(xs), label)] }
-
-// Chance / Uniform are exported for property files.
+// Chance / Uniform / Intn are exported for property files.
 func Chance(t *T, pct int, label string) bool { return chance(t, pct, label) }
 func Uniform(t *T, n int, label string) int   { return uniform(t, n, label) }
 func Intn(t *T, lo, hi int, label string) int { return intn(t, lo, hi, label) }
